@@ -723,7 +723,8 @@ impl Hash for Value {
             }
             Value::Float64Value(x) => {
                 state.write_u8(FLOAT64_HASH);
-                if x.is_nan() {
+                if x.is_nan() || *x == 0.0 {
+                    // NaN and both zeros (which compare as equal) hash as +0.0.
                     state.write_u64(0);
                 } else {
                     state.write_u64(x.to_bits());
